@@ -36,6 +36,26 @@ KIND_FORMAT = {"rel8": (0, 1, 8, 0, 0), "rel32": (0, 4, 32, 0, 0), "imm26": (0, 
                "imm14": (0, 4, 14, 5, 2), "adr": (2, 4, 21, 5, 0), "adrp": (3, 4, 21, 5, 12)}
 A64_KIND = {"b": "imm26", "bl": "imm26", "bcond": "imm19", "cbz": "imm19", "cbnz": "imm19", "tbz": "imm14", "tbnz": "imm14",
             "adr": "adr", "adrp": "adrp", "ldr": "imm19", "ldrsw": "imm19", "ldrv": "imm19"}
+A64_DB_NAME = {"b": "b", "bl": "bl", "bcond": "b.<cond>", "cbz": "cbz", "cbnz": "cbnz", "tbz": "tbz", "tbnz": "tbnz", "adr": "adr", "adrp": "adrp",
+               "ldr": "ldr", "ldrsw": "ldrsw", "ldrv": "ldr"}
+_A64_DB = []
+
+
+def a64_db_names():
+    """mnemonic number -> name and row id -> form text of the generated database snapshot the theorems are proven against
+    (coq/gen/IsaA64Db.v: header comment `mnemonics: 0=abs 1=adc ...`, per row `(* form | template *) {| r_id := N;`)"""
+    if not _A64_DB:
+        import re
+        txt = open(os.path.join(vlib.COQ, "gen", "IsaA64Db.v")).read()
+        head = txt[txt.index("mnemonics:"):txt.index("*)")].split("fields:")[0]
+        mn = {}
+        for n, name in re.findall(r"(\d+)=(\S+)", head):
+            mn.setdefault(int(n), name)
+        form = {int(i): f.strip() for f, i in re.findall(r"^\s*\(\* (.*?) \| .*? \*\) \{\| r_id := (\d+);", txt, re.M)}
+        _A64_DB.append((mn, form))
+    return _A64_DB[0]
+
+
 A64_LABEL_ARG = {"b": 2, "bl": 2, "bcond": 3, "cbz": 4, "cbnz": 4, "tbz": 4, "tbnz": 4, "adr": 3, "adrp": 3, "ldr": 4, "ldrsw": 3, "ldrv": 4}
 A64_ADDEND_ARG = {"ldr": 5, "ldrsw": 4, "ldrv": 5}
 X86_BRANCH = ("jmp", "jcc", "call", "jecxz", "loop")
@@ -1016,8 +1036,19 @@ def check_programs(ck, impl, model, programs):
         for r, blk, outs in zip(results, qblocks, qouts):
             for (q, want, what), got in zip(r["tk"].a64_q if blk else [], outs or []):
                 stats["a64_decoded"] = stats.get("a64_decoded", 0) + 1
-                if got != str(want):
+                g = got.split()
+                if not g or g[0] != str(want):
                     r["diffs"].append("%s: the structural a64 decoder reads the word as designating %s, the monitor's decoder %#x (%s)" % (what, got, want, q))
+                elif len(g) == 3:
+                    # Labels.A64DbTie: the database mnemonic / row the model names for the decoded instruction (theorems C03_a64_db_*)
+                    # must be the instruction the generator asked the assembler to emit
+                    ins = what.split()[1]
+                    name = A64_DB_NAME.get(ins)
+                    mn, form = a64_db_names()
+                    stats["a64_db_named"] = stats.get("a64_db_named", 0) + 1
+                    if name is not None and (mn.get(int(g[1])) != name or form.get(int(g[2]), "").split(" ")[0] != name):
+                        r["diffs"].append("%s: the model names database mnemonic %r / row %r for the word %s, emitted was %r"
+                                          % (what, mn.get(int(g[1])), form.get(int(g[2])), q, name))
     return results, stats
 
 
